@@ -25,3 +25,51 @@ Run/RunC01.vos Run/RunC01.vok Run/RunC01.required_vos: Run/RunC01.v Base.vos Mod
 Properties/C01.vo Properties/C01.glob Properties/C01.v.beautified Properties/C01.required_vo: Properties/C01.v Base.vo Prim.vo Model/Digit.vo Model/Core.vo Model/Shift.vo Model/AddSub.vo
 Properties/C01.vio: Properties/C01.v Base.vio Prim.vio Model/Digit.vio Model/Core.vio Model/Shift.vio Model/AddSub.vio
 Properties/C01.vos Properties/C01.vok Properties/C01.required_vos: Properties/C01.v Base.vos Prim.vos Model/Digit.vos Model/Core.vos Model/Shift.vos Model/AddSub.vos
+Model/Mul.vo Model/Mul.glob Model/Mul.v.beautified Model/Mul.required_vo: Model/Mul.v Base.vo Prim.vo Model/Digit.vo Model/Core.vo Model/Shift.vo Model/AddSub.vo
+Model/Mul.vio: Model/Mul.v Base.vio Prim.vio Model/Digit.vio Model/Core.vio Model/Shift.vio Model/AddSub.vio
+Model/Mul.vos Model/Mul.vok Model/Mul.required_vos: Model/Mul.v Base.vos Prim.vos Model/Digit.vos Model/Core.vos Model/Shift.vos Model/AddSub.vos
+Model/Div.vo Model/Div.glob Model/Div.v.beautified Model/Div.required_vo: Model/Div.v Base.vo Prim.vo Model/Digit.vo Model/Core.vo Model/Shift.vo Model/AddSub.vo Model/Mul.vo
+Model/Div.vio: Model/Div.v Base.vio Prim.vio Model/Digit.vio Model/Core.vio Model/Shift.vio Model/AddSub.vio Model/Mul.vio
+Model/Div.vos Model/Div.vok Model/Div.required_vos: Model/Div.v Base.vos Prim.vos Model/Digit.vos Model/Core.vos Model/Shift.vos Model/AddSub.vos Model/Mul.vos
+Model/Bits.vo Model/Bits.glob Model/Bits.v.beautified Model/Bits.required_vo: Model/Bits.v Base.vo Prim.vo Model/Core.vo Model/Shift.vo
+Model/Bits.vio: Model/Bits.v Base.vio Prim.vio Model/Core.vio Model/Shift.vio
+Model/Bits.vos Model/Bits.vok Model/Bits.required_vos: Model/Bits.v Base.vos Prim.vos Model/Core.vos Model/Shift.vos
+Model/Pow.vo Model/Pow.glob Model/Pow.v.beautified Model/Pow.required_vo: Model/Pow.v Base.vo Prim.vo Model/Digit.vo Model/Core.vo Model/Shift.vo Model/AddSub.vo Model/Mul.vo Model/Div.vo Model/Bits.vo
+Model/Pow.vio: Model/Pow.v Base.vio Prim.vio Model/Digit.vio Model/Core.vio Model/Shift.vio Model/AddSub.vio Model/Mul.vio Model/Div.vio Model/Bits.vio
+Model/Pow.vos Model/Pow.vok Model/Pow.required_vos: Model/Pow.v Base.vos Prim.vos Model/Digit.vos Model/Core.vos Model/Shift.vos Model/AddSub.vos Model/Mul.vos Model/Div.vos Model/Bits.vos
+Run/RunC02.vo Run/RunC02.glob Run/RunC02.v.beautified Run/RunC02.required_vo: Run/RunC02.v Base.vo Prim.vo Model/Core.vo Model/Shift.vo Model/AddSub.vo Model/Mul.vo Run/RunBase.vo
+Run/RunC02.vio: Run/RunC02.v Base.vio Prim.vio Model/Core.vio Model/Shift.vio Model/AddSub.vio Model/Mul.vio Run/RunBase.vio
+Run/RunC02.vos Run/RunC02.vok Run/RunC02.required_vos: Run/RunC02.v Base.vos Prim.vos Model/Core.vos Model/Shift.vos Model/AddSub.vos Model/Mul.vos Run/RunBase.vos
+Run/RunC03.vo Run/RunC03.glob Run/RunC03.v.beautified Run/RunC03.required_vo: Run/RunC03.v Base.vo Prim.vo Model/Core.vo Model/Shift.vo Model/AddSub.vo Model/Mul.vo Model/Div.vo Run/RunBase.vo
+Run/RunC03.vio: Run/RunC03.v Base.vio Prim.vio Model/Core.vio Model/Shift.vio Model/AddSub.vio Model/Mul.vio Model/Div.vio Run/RunBase.vio
+Run/RunC03.vos Run/RunC03.vok Run/RunC03.required_vos: Run/RunC03.v Base.vos Prim.vos Model/Core.vos Model/Shift.vos Model/AddSub.vos Model/Mul.vos Model/Div.vos Run/RunBase.vos
+Run/RunC05.vo Run/RunC05.glob Run/RunC05.v.beautified Run/RunC05.required_vo: Run/RunC05.v Base.vo Prim.vo Model/Core.vo Model/Shift.vo Run/RunBase.vo
+Run/RunC05.vio: Run/RunC05.v Base.vio Prim.vio Model/Core.vio Model/Shift.vio Run/RunBase.vio
+Run/RunC05.vos Run/RunC05.vok Run/RunC05.required_vos: Run/RunC05.v Base.vos Prim.vos Model/Core.vos Model/Shift.vos Run/RunBase.vos
+Run/RunC06.vo Run/RunC06.glob Run/RunC06.v.beautified Run/RunC06.required_vo: Run/RunC06.v Base.vo Prim.vo Model/Core.vo Model/Shift.vo Model/Bits.vo Run/RunBase.vo
+Run/RunC06.vio: Run/RunC06.v Base.vio Prim.vio Model/Core.vio Model/Shift.vio Model/Bits.vio Run/RunBase.vio
+Run/RunC06.vos Run/RunC06.vok Run/RunC06.required_vos: Run/RunC06.v Base.vos Prim.vos Model/Core.vos Model/Shift.vos Model/Bits.vos Run/RunBase.vos
+Run/RunC07.vo Run/RunC07.glob Run/RunC07.v.beautified Run/RunC07.required_vo: Run/RunC07.v Base.vo Prim.vo Model/Core.vo Model/Shift.vo Model/Bits.vo Run/RunBase.vo
+Run/RunC07.vio: Run/RunC07.v Base.vio Prim.vio Model/Core.vio Model/Shift.vio Model/Bits.vio Run/RunBase.vio
+Run/RunC07.vos Run/RunC07.vok Run/RunC07.required_vos: Run/RunC07.v Base.vos Prim.vos Model/Core.vos Model/Shift.vos Model/Bits.vos Run/RunBase.vos
+Run/RunC08.vo Run/RunC08.glob Run/RunC08.v.beautified Run/RunC08.required_vo: Run/RunC08.v Base.vo Prim.vo Model/Core.vo Model/Shift.vo Model/AddSub.vo Model/Mul.vo Model/Div.vo Model/Bits.vo Model/Pow.vo Run/RunBase.vo
+Run/RunC08.vio: Run/RunC08.v Base.vio Prim.vio Model/Core.vio Model/Shift.vio Model/AddSub.vio Model/Mul.vio Model/Div.vio Model/Bits.vio Model/Pow.vio Run/RunBase.vio
+Run/RunC08.vos Run/RunC08.vok Run/RunC08.required_vos: Run/RunC08.v Base.vos Prim.vos Model/Core.vos Model/Shift.vos Model/AddSub.vos Model/Mul.vos Model/Div.vos Model/Bits.vos Model/Pow.vos Run/RunBase.vos
+Properties/C02.vo Properties/C02.glob Properties/C02.v.beautified Properties/C02.required_vo: Properties/C02.v Base.vo Prim.vo
+Properties/C02.vio: Properties/C02.v Base.vio Prim.vio
+Properties/C02.vos Properties/C02.vok Properties/C02.required_vos: Properties/C02.v Base.vos Prim.vos
+Properties/C03.vo Properties/C03.glob Properties/C03.v.beautified Properties/C03.required_vo: Properties/C03.v Base.vo Prim.vo
+Properties/C03.vio: Properties/C03.v Base.vio Prim.vio
+Properties/C03.vos Properties/C03.vok Properties/C03.required_vos: Properties/C03.v Base.vos Prim.vos
+Properties/C05.vo Properties/C05.glob Properties/C05.v.beautified Properties/C05.required_vo: Properties/C05.v Base.vo Prim.vo
+Properties/C05.vio: Properties/C05.v Base.vio Prim.vio
+Properties/C05.vos Properties/C05.vok Properties/C05.required_vos: Properties/C05.v Base.vos Prim.vos
+Properties/C06.vo Properties/C06.glob Properties/C06.v.beautified Properties/C06.required_vo: Properties/C06.v Base.vo Prim.vo
+Properties/C06.vio: Properties/C06.v Base.vio Prim.vio
+Properties/C06.vos Properties/C06.vok Properties/C06.required_vos: Properties/C06.v Base.vos Prim.vos
+Properties/C07.vo Properties/C07.glob Properties/C07.v.beautified Properties/C07.required_vo: Properties/C07.v Base.vo Prim.vo
+Properties/C07.vio: Properties/C07.v Base.vio Prim.vio
+Properties/C07.vos Properties/C07.vok Properties/C07.required_vos: Properties/C07.v Base.vos Prim.vos
+Properties/C08.vo Properties/C08.glob Properties/C08.v.beautified Properties/C08.required_vo: Properties/C08.v Base.vo Prim.vo
+Properties/C08.vio: Properties/C08.v Base.vio Prim.vio
+Properties/C08.vos Properties/C08.vok Properties/C08.required_vos: Properties/C08.v Base.vos Prim.vos
